@@ -128,7 +128,7 @@ let parse_fans tok =
 let payload len seed = List.init len (fun j -> ztab.(97 + (seed + j) mod 26))
 let parse_op tok =
   match tok.[0] with
-  | 'r' -> OReady | 'f' -> OFlush | 'c' -> OClose | 'x' -> OConv
+  | 'r' -> OReady | 'f' -> OFlush | 'c' -> OClose | 'x' | 'y' -> OConv
   | 's' -> let x = String.index tok 'x' in
            let len = int_of_string (String.sub tok 1 (x - 1)) in
            let seed = int_of_string (String.sub tok (x + 1) (String.length tok - x - 1)) in
